@@ -158,11 +158,11 @@ func sourceOf(flushes []int, compactedAt, seq int) string {
 // lexicographic order differs from a level order of its trie.
 func mixedDepth(names []string) bool {
 	sort.Strings(names)
-	for i, x := range names {
-		for j := i + 1; j < len(names); j++ {
-			if strings.HasPrefix(names[j], x) && len(names[j]) > len(x) && j+1 < len(names) {
-				return true
-			}
+	// the names that x is a prefix of follow x directly in sorted order, so it is enough to look at
+	// the successor of every name
+	for i := 0; i+2 < len(names); i++ {
+		if x, y := names[i], names[i+1]; len(y) > len(x) && strings.HasPrefix(y, x) {
+			return true
 		}
 	}
 	return false
@@ -246,8 +246,21 @@ func (h *hist) compact() {
 	if len(chosen) == 0 {
 		chosen = append(chosen, rapid.SampledFrom(all).Draw(h.t, "compactOne"))
 	}
+	if h.vol != nil && rapid.IntRange(0, 5).Draw(h.t, "compactBulkFamily") != 0 {
+		// volume histories: mostly the dictionary family of the bulk bucket takes part
+		bf, has := h.vol.family(), false
+		for _, f := range chosen {
+			has = has || f == bf
+		}
+		if !has {
+			chosen = append(chosen, bf)
+		}
+	}
 	// Family.Compact (more than one level-0 file) or the periodic job (compaction threshold)
 	force := rapid.IntRange(0, 4).Draw(h.t, "compactGuard") != 0
+	if h.vol != nil && !force {
+		force = rapid.Bool().Draw(h.t, "compactGuardVolume") // few flushes per case: the threshold guard rarely lets the job run
+	}
 	guard := "periodic job"
 	if force {
 		guard = "Family.Compact"
